@@ -224,7 +224,7 @@ Definition step_ndels (rooms : list room) (st : store) (batch : list rndel) : st
 (* the edge an entry designates: (src, src_entity, label, dest, cdate) *)
 Definition edge_hit (d : redel) (y : redge) : bool :=
   N.eqb (e_src y) (ed_src d) && oent_eqb (e_ent y) (ed_ent d) && N.eqb (e_label y) (ed_label d) &&
-  N.eqb (e_dest y) (ed_dest d).
+  N.eqb (e_dest y) (ed_dest d) && Z.eqb (e_cdate y) (ed_cdate d).
 Definition edel_ok (rooms : list room) (st : store) (d : redel) : bool :=
   match ed_ent d with
   | None => false
